@@ -11,6 +11,14 @@ CLAIMS = {
         "never-reached rules are traps), and executions on seeded random larger trees are trace-validated by TLC against the same spec.",
    note="Bounds: quick W=2/D=1 + fallbacks<=2 (1.6e5 states); thorough adds W=3/D=1 and W=2/D=2. Trusted: TLC, the driver harness/drv_policy.c, clang sanitizers. Empty composite lists are outside the domain.",
    technique="TLC model checking of an explicit TLA+ spec + replay of all TLC behaviours into libksi + TLC trace validation of recorded executions"),
+ "C03": dict(level="model_checking", design_ref="DESIGN.md 4/C03",
+   text="HashChain.tla states the KSI chain formulas as total functions over abstract hash terms (aggregation with 64-bit level corrections as limbs, "
+        "chain lists, calendar aggregation with algorithm switching, calendar time derivation, index shape) plus theorems (closed-form level, calendar "
+        "time algorithm = inverse of the reference tree shape and accepts no other shape); TLC checks the theorems on every enumerated case and exports "
+        "the value the spec assigns; every case is concretised with hashlib and replayed through the libksi chain APIs, including repeated aggregation of "
+        "one chain object from several start levels.",
+   note="Bounds: quick = all link sequences <=2 over side x 3 sibling kinds x 8 boundary corrections x 4 start levels, long uniform chains to 256 links, all calendar shapes <=7 x publication times <=127, index shapes <=8 and 31..70; thorough = calendar shapes <=11 x times <=2047. Publication times < 2^31 in the model. Trusted: TLC, hashlib, harness/drv_chain.c.",
+   technique="TLC-checked TLA+ function specification; exhaustive TLC-generated case tables replayed into libksi with hashlib-concretised hash terms"),
 }
 for e in ENGINES:
     e["serves_properties"] = sorted(CLAIMS)
